@@ -131,8 +131,4 @@ def main(repo='/repo', out='/verif/coq/theories/Gen/DelegGen.v'):
 
 
 if __name__ == '__main__':
-    fs = translate(sys.argv[1] if len(sys.argv) > 1 else '/repo')
-    print(len(fs))
-    for f in fs:
-        if f[3] != f[4]:
-            print('NOT-SAME', f)
+    print(main(sys.argv[1] if len(sys.argv) > 1 else '/repo'))
